@@ -11,11 +11,15 @@ UE = exceptions.UnmarshalingException
 
 
 def do_unmarshal(data):
-    try:
-        n, ch, f = frame.unmarshal(data)
-        return {'r': 'ok', 'n': n, 'ch': ch, 'f': a_frame(f)}, f
-    except Exception as e:  # noqa
-        return a_exc(e, UE), None
+    """frame.unmarshal under the decoder-step budget: a decoder that does not terminate is recorded
+    as {'r': 'budget'} instead of hanging the driver"""
+    import observers
+    res, exc, steps, peak = observers.with_budget(frame.unmarshal, bytes(data))
+    if isinstance(exc, observers.BudgetExceeded):
+        return {'r': 'budget'}, None
+    if exc is not None:
+        return a_exc(exc, UE), None
+    return {'r': 'ok', 'n': res[0], 'ch': res[1], 'f': a_frame(res[2])}, res[2]
 
 
 def encode_value(v, pos='top'):
@@ -90,3 +94,168 @@ def marshal_part(obj):
 
 def encode_arg(ty, v):
     return {'ty': ty, 'in': abstract(v), 'out': _call(encode.by_type, v, ty)}
+
+
+# ---------------------------------------------------------------------------
+# decoding arbitrary bytes
+# ---------------------------------------------------------------------------
+import observers  # noqa: E402
+
+
+def unmarshal(data, budget=True, memory=False, extra=None):
+    """frame.unmarshal(data); with budget: under the decoder-step budget (C08)"""
+    data = bytes(data)
+    ev = {'b': list(data)}
+    if budget:
+        res, exc, steps, peak = observers.with_budget(frame.unmarshal, data, memory)
+        ev['steps'], ev['peak'], ev['bound'] = steps, peak, observers.impl_bound(len(data))
+        if isinstance(exc, observers.BudgetExceeded):
+            ev['out'] = {'r': 'budget'}
+        elif exc is not None:
+            ev['out'] = a_exc(exc, UE)
+        else:
+            ev['out'] = {'r': 'ok', 'n': res[0], 'ch': res[1], 'f': a_frame(res[2])}
+    else:
+        ev['out'], _ = do_unmarshal(data)
+    if extra:
+        ev.update(extra)
+    return ev
+
+
+def cutset(data, cuts=None):
+    """every strict prefix (or the given cut points) of a complete frame"""
+    data = bytes(data)
+    full, _ = do_unmarshal(data)
+    res = []
+    for k in (range(len(data)) if cuts is None else cuts):
+        o, _ = do_unmarshal(data[:k])
+        r = {'k': k, 'r': o['r'], 'type': o.get('type', ''), 'lib': bool(o.get('lib', False)), 'n': o.get('n', -1)}
+        res.append(r)
+    return {'b': list(data), 'full': {'r': full['r'], 'n': full.get('n', -1)}, 'cuts': res}
+
+
+def frame_parts(data):
+    data = bytes(data)
+    try:
+        r = frame.frame_parts(data)
+        ok = isinstance(r, tuple) and len(r) == 3
+        t, c, s = r if ok else (None, None, None)
+        out = {'r': 'ok', 'shape': ok,
+               'type': t if isinstance(t, int) else -1, 'ch': c if isinstance(c, int) else -1,
+               'size': list(s.to_bytes(4, 'big')) if isinstance(s, int) and 0 <= s < 2 ** 32 else [],
+               'size_none': s is None}
+    except Exception as e:  # noqa
+        out = a_exc(e, UE)
+    return {'b': list(data), 'out': out}
+
+
+def decode_value(data, pos='top'):
+    data = bytes(data)
+    fn = {'top': decode.embedded_value, 'table': decode.field_table, 'array': decode.field_array}[pos]
+    res, exc, steps, peak = observers.with_budget(fn, data)
+    if isinstance(exc, observers.BudgetExceeded):
+        out = {'r': 'budget'}
+    elif exc is not None:
+        out = a_exc(exc, UE)
+    else:
+        out = {'r': 'ok', 'n': res[0], 'v': abstract(res[1])}
+    return {'pos': pos, 'b': list(data), 'out': out, 'steps': steps}
+
+
+# ---------------------------------------------------------------------------
+# construction / validation (C13), mapping protocol (C19)
+# ---------------------------------------------------------------------------
+def construct(cls_name, kwargs):
+    from abstraction import class_by_name
+    k = class_by_name(cls_name)
+    try:
+        o = k(**kwargs)
+        out = {'r': 'ok', 'f': a_frame(o)}
+    except Exception as e:  # noqa
+        out = a_exc(e)
+    return {'cls': cls_name, 'args': {n: abstract(v) for n, v in kwargs.items()} or {'_': {'t': 'none'}}, 'out': out}
+
+
+def set_then_marshal(cls_name, kwargs, arg, v, ch=1):
+    """valid construction, attribute changed afterwards, then frame.marshal"""
+    from abstraction import class_by_name
+    k = class_by_name(cls_name)
+    o = k(**kwargs)
+    setattr(o, arg, v)
+    fin = a_frame(o)
+    try:
+        out = {'r': 'ok', 'b': list(frame.marshal(o, ch))}
+    except Exception as e:  # noqa
+        out = a_exc(e)
+    return {'cls': cls_name, 'arg': arg, 'in': fin, 'ch': ch, 'out': out}
+
+
+def char_block(cls_name, base_kwargs, arg, lo, hi, template=('', '')):
+    """which one-character names (embedded in template) does the constructor accept?"""
+    from abstraction import class_by_name
+    k = class_by_name(cls_name)
+    acc = []
+    other = []
+    pre, post = template
+    for c in range(lo, hi + 1):
+        kw = dict(base_kwargs)
+        kw[arg] = pre + chr(c) + post
+        try:
+            k(**kw)
+            acc.append(c)
+        except ValueError:
+            pass
+        except Exception as e:  # noqa
+            other.append(c)
+    return {'cls': cls_name, 'arg': arg, 'lo': lo, 'hi': hi, 'pre': [ord(x) for x in pre], 'post': [ord(x) for x in post],
+            'accepted': acc, 'other': other}
+
+
+def observe(o):
+    """everything the mapping protocol of a frame / properties object shows"""
+    k = type(o)
+    names = list(k.__slots__)
+    ev = {'cls': o.name if hasattr(o, 'frame_id') and k.__name__ != 'Properties' else 'Basic.Properties',
+          'attrs': {n: _a(o, n) for n in names} or {'_': {'t': 'none'}}}
+    try:
+        items = list(o)
+        ev['iter_names'] = [str(x[0]) for x in items]
+        ev['iter_vals'] = [abstract(x[1]) for x in items]
+        d = dict(o)
+        ev['dict_names'] = list(d.keys())
+        ev['dict_vals'] = [abstract(x) for x in d.values()]
+        ev['len'] = len(o)
+        ev['contains'] = [bool(n in o) for n in names]
+        probes = ['', 'nope', 'name', 'index', '__slots__', 'validate', '_' + (names[0] if names else 'x')]
+        ev['probes'] = probes
+        ev['contains_probe'] = [bool(p in o) for p in probes]
+        ev['getitem'] = [abstract(o[n]) for n in names]
+        ev['attributes'] = [str(x) for x in k.attributes()]
+        ev['types'] = [str(k.amqp_type(n)) for n in names]
+        ev['r'] = 'ok'
+    except Exception as e:  # noqa
+        ev['r'] = 'exc'
+        ev['exc'] = a_exc(e)
+    return ev
+
+
+def _a(o, n):
+    try:
+        return abstract(getattr(o, n))
+    except AttributeError:
+        return {'t': 'other', 'name': '<unset>'}
+
+
+def peek(f, ch, tail):
+    """encode, peek at the 7-byte header (+ arbitrary tail), take size + 8 bytes, decode"""
+    fin = a_frame(f)
+    try:
+        b = frame.marshal(f, ch)
+    except Exception:  # noqa
+        return None
+    fp = frame_parts(b + tail)['out']
+    un = {'r': 'skip'}
+    if fp.get('r') == 'ok' and fp.get('size'):
+        size = int.from_bytes(bytes(fp['size']), 'big')
+        un, _ = do_unmarshal((b + tail)[:size + 8])
+    return {'in': fin, 'ch': ch, 'out': {'r': 'ok', 'b': list(b)}, 'fp': fp, 'un': un, 'tail': len(tail)}
